@@ -2,7 +2,7 @@
    Statements only; proofs in Proof/PersistLemmas.v; model Model/Persist.v.  [step] is the configured
    checksum algorithm (one step per octet); [wf st m]: fault-free medium whose window covers the
    instance's region, chunk size >= 1, region below 2^32; [at_ m a n]: the n octets of the medium at a. *)
-From Ufw Require Import Base.Bits Model.Persist Proof.PersistLemmas.
+From Ufw Require Import Base.Bits Model.Persist Proof.PersistLemmas Proof.PersistRegion.
 Local Open Scope N_scope.
 
 (* the checksum computed from the medium is the fold of the algorithm over the data image, for EVERY
@@ -93,3 +93,23 @@ Theorem C10_reset : forall st m item, nofault m -> (p_csize st = 2 \/ p_csize st
                         (let '(w, a, n, g) := e in w = true /\ p_caddr st <= a /\ a + n <= p_caddr st + p_csize st + p_dsize st /\ g = n)).
 Proof. exact reset_spec. Qed.
 Print Assumptions C10_reset.
+
+(* ---- every medium access stays inside the checksum-plus-data region: ANY medium (image, read / write fault scripts, chunk size),
+   ANY arguments, whether the call succeeds or fails; a part access beyond the data size makes no access at all ---- *)
+Theorem C10_region_store : forall step st m src offset n r m', placed st -> (p_csize st = 2 \/ p_csize st = 4) ->
+  store_part step st m src offset n = (r, m') -> exists l, m_log m' = m_log m ++ l /\ inreg st l.
+Proof. exact store_part_region. Qed.
+Print Assumptions C10_region_store.
+Theorem C10_region_validate : forall step st m r m', placed st ->
+  validate step st m = (r, m') -> exists l, m_log m' = m_log m ++ l /\ inreg st l.
+Proof. exact validate_region. Qed.
+Print Assumptions C10_region_validate.
+Theorem C10_region_fetch : forall st m offset n r d m', placed st ->
+  fetch_part st m offset n = (r, d, m') -> exists l, m_log m' = m_log m ++ l /\ inreg st l.
+Proof. exact fetch_part_region. Qed.
+Print Assumptions C10_region_fetch.
+Theorem C10_region_reset : forall st m item r m', placed st ->
+  reset st m item = (r, m') -> exists l, m_log m' = m_log m ++ l /\ inreg st l.
+Proof. exact reset_region. Qed.
+Print Assumptions C10_region_reset.
+
